@@ -59,6 +59,56 @@ def draw_plan(rng, profiles):
     nf = 1 if rng.random() < 0.6 else rng.choice([2, 2, 3, 4])
     plan, desc = {}, []
     ranks = sorted(profiles)
+    if rng.random() < 0.15:
+        # "this statement is slow every time": the timeout strikes before the same source line in every block (or in a
+        # random half of the blocks) that reaches it
+        rk = rng.choice(ranks)
+        prof = profiles[rk]
+        if prof:
+            by_site = {}
+            for ent in prof:
+                by_site.setdefault(str(ent[4]), set()).update(ent[5])
+            site = rng.choice(sorted(by_site))
+            L = rng.choice(sorted(by_site[site]))
+            occ = rng.choice([1, 1, 1, 2])
+            if rng.random() < 0.6:
+                plan[str(rk)] = {'*': ['line', L, occ]}
+            else:
+                blocks = [e[0] for e in prof if L in e[5]]
+                plan[str(rk)] = {str(b): ['line', L, occ] for b in blocks if rng.random() < 0.5}
+            desc.append((site, 'line', L, occ))
+            return plan, desc
+    if rng.random() < 0.25:
+        # "repeat" plan: the same statement tick in several / all blocks of one path class - i.e. the same code path
+        # interrupted at the same place again and again (the same function in successive rounds, and its look-alikes)
+        rk = rng.choice(ranks)
+        prof = profiles[rk]
+        if prof:
+            classes = {}
+            for ent in prof:
+                classes.setdefault(ent[3], []).append(ent)
+            multi = sorted(c for c, v in classes.items() if len(v) >= 2) or sorted(classes)
+            # site first (the rarely entered blocks must not be drowned), then class within the site
+            by_site = {}
+            for c in multi:
+                by_site.setdefault(str(classes[c][0][4]), []).append(c)
+            cid = rng.choice(by_site[rng.choice(sorted(by_site))])
+            ents = sorted(classes[cid])
+            nt = max(1, min(e[1] for e in ents))
+            t = rng.randint(1, nt)
+            mode = rng.choice(['all', 'all', 'pair', 'stride'])
+            if mode == 'pair':
+                i0 = rng.randrange(len(ents))
+                pick = ents[i0:i0 + 2]
+            elif mode == 'stride':
+                k = rng.randint(2, 4)
+                pick = ents[rng.randrange(k)::k]
+            else:
+                pick = ents
+            for b, nt_, nc, _, site in [e[:5] for e in pick[:400]]:
+                plan.setdefault(str(rk), {})[str(b)] = ['stmt', t]
+            desc.append((cid, 'repeat-' + mode, t, tuple(ents[0][4]) if ents[0][4] else None))
+            return plan, desc
     for _ in range(nf):
         rk = rng.choice(ranks)
         prof = profiles[rk]
@@ -67,8 +117,14 @@ def draw_plan(rng, profiles):
         classes = {}
         for ent in prof:
             classes.setdefault(ent[3], []).append(ent)
-        cid = rng.choice(sorted(classes))
-        b, nt, nc, _, site = rng.choice(classes[cid])
+        if rng.random() < 0.3:
+            by_site = {}
+            for c in classes:
+                by_site.setdefault(str(classes[c][0][4]), []).append(c)
+            cid = rng.choice(sorted(by_site[rng.choice(sorted(by_site))]))
+        else:
+            cid = rng.choice(sorted(classes))
+        b, nt, nc, _, site = rng.choice(classes[cid])[:5]
         if rng.random() < 0.3 and nc > 0:
             gran, t = 'deep', rng.randint(1, nc)
         else:
@@ -102,8 +158,8 @@ def main(tier, seed, budget):
     cfgs = config_list(seed, tier)
     src = source_lines()
     stats = dict(worlds=0, profile_worlds=0, faults_planned=0, faults_fired=0, armed_not_fired=0, by_gran={}, by_site={},
-                 by_P={}, multi_fault_worlds=0, covered=set(), probes={k: 0 for k in PROBES}, timeouts_handled_msgs=0,
-                 events=0, ticks_total=0, blocks_total=0, classes_total=0, sound_functions=0, ref_failed=[], sweep=None)
+                 by_P={}, multi_fault_worlds=0, covered=set(), worlds_nontrivial=set(), probes={k: 0 for k in PROBES}, timeouts_handled_msgs=0,
+                 events=0, ticks_total=0, blocks_total=0, classes_total=0, sound_functions=0, ref_failed=[], sweep=None, repeat_sweep=None, line_sweep=None)
     samples = []
     selftest = {}
     with Pool(16, hashseed=0) as pool:
@@ -163,8 +219,10 @@ def main(tier, seed, budget):
                 stats['multi_fault_worlds'] += 1
             if r.get('stats'):
                 stats['sound_functions'] += r['stats'].get('functions', 0)
+            wkey = []
             for rki, rk in enumerate(r['ranks']):
                 clk = rk.get('clock') or {}
+                wkey += [(rki, f[0], f[1], f[2]) for f in clk.get('fired') or []]
                 stats['armed_not_fired'] += len(clk.get('armed_not_fired') or [])
                 for f in clk.get('fired') or []:
                     b, gran, t, func, where, site = f
@@ -178,6 +236,9 @@ def main(tier, seed, budget):
                         for name, pred in PROBES.items():
                             if pred(text):
                                 stats['probes'][name] += 1
+
+            if wkey:
+                stats['worlds_nontrivial'].add((a['runname'], a['compl'], a['P'], tuple(sorted(wkey))))
 
         def handle(job, out, pending_min):
             a = job['args']
@@ -217,7 +278,7 @@ def main(tier, seed, budget):
         sweep_key = ('core_maths', 3, 1)
         if sweep_key in profiles:
             pr = profiles[sweep_key][0]
-            pts = [(b, t) for b, nt, nc, cid, site in pr for t in range(1, nt + 1)]
+            pts = [(e[0], t) for e in pr for t in range(1, e[1] + 1)]
             if quick:
                 rng = base.rng_for(seed, 'c15-sweep')
                 pts = sorted(rng.sample(pts, min(len(pts), 320)))
@@ -231,6 +292,42 @@ def main(tier, seed, budget):
                 handle(job, out, pending_min)
             stats['sweep'] = dict(config=list(sweep_key), points_total=sum(p[1] for p in pr), points_run=stats['worlds'] - n0,
                                   complete=not quick)
+        # ---- "same path interrupted at the same place in every round": complete for the smallest configuration ----
+        if sweep_key in profiles:
+            pr = profiles[sweep_key][0]
+            classes = {}
+            for ent in pr:
+                classes.setdefault(ent[3], []).append(ent)
+            rj = []
+            for cid in sorted(classes):
+                ents = sorted(classes[cid])
+                if len(ents) < 2:
+                    continue
+                for t in range(1, min(e[1] for e in ents) + 1):
+                    a = base_args(cfg_by[sweep_key[:2]], 1, base.run_seed(seed, 700000 + len(rj)))
+                    a['plan'] = {'0': {str(e[0]): ['stmt', t] for e in ents}}
+                    rj.append(dict(fn=JOB, args=a, timeout=600))
+            if quick and len(rj) > 400:
+                rng = base.rng_for(seed, 'c15-repeat-sweep')
+                rj = rng.sample(rj, 400)
+            n0 = stats['worlds']
+            for job, out in pool.imap(rj, timeout=600):
+                handle(job, out, pending_min)
+            stats['repeat_sweep'] = dict(config=list(sweep_key), plans_run=stats['worlds'] - n0, complete=not (quick and len(rj) >= 400))
+        # ---- "one statement is slow every time": every source line of the smallest configuration ----
+        if sweep_key in profiles:
+            pr = profiles[sweep_key][0]
+            lines = sorted({L for e in pr for L in e[5]})
+            lj = []
+            for L in lines:
+                for occ in (1, 2):
+                    a = base_args(cfg_by[sweep_key[:2]], 1, base.run_seed(seed, 600000 + L * 10 + occ))
+                    a['plan'] = {'0': {'*': ['line', L, occ]}}
+                    lj.append(dict(fn=JOB, args=a, timeout=600))
+            n0 = stats['worlds']
+            for job, out in pool.imap(lj, timeout=600):
+                handle(job, out, pending_min)
+            stats['line_sweep'] = dict(config=list(sweep_key), source_lines=len(lines), plans_run=stats['worlds'] - n0, complete=True)
         # ---- seeded sampling of fault plans ----
         if keys:
             deadline = time.time() + explore_s
@@ -255,19 +352,19 @@ def main(tier, seed, budget):
     wall = T()
     cov = dict(
         evaluations=stats['worlds'] + stats['profile_worlds'],
-        distinct_nontrivial=len(stats['covered']),
+        distinct_nontrivial=len(stats['worlds_nontrivial']), distinct_fault_points_fired=len(stats['covered']),
         rule='one evaluation = one simulated generation world with a fault plan (1 fault in 60% of plans, 2-4 otherwise; statement '
              'granularity 70%, call-inside-sympy granularity 30%; blocks drawn uniformly over path classes of the fault-free profile, then over '
-             'blocks, then over ticks). Non-trivial = at least one timer actually fired; distinct = distinct (configuration, P, rank, block '
-             'ordinal, granularity, tick) fired.',
+             'blocks, then over ticks). Non-trivial = at least one timer actually fired; distinct = distinct (configuration, P, set of fired '
+             '(rank, block ordinal, granularity, tick)); distinct_fault_points_fired counts the individual fault points.',
         samples=samples, configurations=[[c['runname'], c['compl'], c['nfun']] for c in cfgs], reference_failed=stats['ref_failed'],
         fault_free_profile=dict(blocks=stats['blocks_total'], statement_ticks=stats['ticks_total'], path_classes=stats['classes_total']),
         faults_planned=stats['faults_planned'], faults_fired=stats['faults_fired'], armed_not_fired=stats['armed_not_fired'],
         fired_by_granularity=stats['by_gran'], fired_by_call_site=stats['by_site'], worlds_by_P=stats['by_P'],
-        multi_fault_worlds=stats['multi_fault_worlds'], probes=stats['probes'], single_fault_sweep=stats['sweep'],
+        multi_fault_worlds=stats['multi_fault_worlds'], probes=stats['probes'], single_fault_sweep=stats['sweep'], same_path_every_round_sweep=stats['repeat_sweep'], slow_statement_sweep=stats['line_sweep'],
         seam_events=stats['events'], functions_checked_by_libsound=stats['sound_functions'],
         runs_per_hour=round(3600.0 * stats['worlds'] / max(wall, 1e-9)), selftest=selftest, components=base.COMPONENTS,
-        fault_kinds={'F3 timer expiry (statement)': stats['by_gran'].get('stmt', 0), 'F3 timer expiry (inside sympy call)': stats['by_gran'].get('deep', 0),
+        fault_kinds={'F3 timer expiry (statement)': stats['by_gran'].get('stmt', 0), 'F3 timer expiry (inside sympy call)': stats['by_gran'].get('deep', 0), 'F3 timer expiry (same source line every time)': stats['by_gran'].get('line', 0),
                      'F5 rank count P>=2 worlds': sum(v for k, v in stats['by_P'].items() if k > 1)},
         harness_errors=len(rep.harness), repo_head=base.repo_head(), exhaustive=False)
     rc = rep.finish()
